@@ -42,15 +42,20 @@ P = {
   ref="DESIGN.md section 5 C11"),
  "C02": dict(
   text="37 Lean theorems about executable models of the Uint128/Int128 conversion surface and of IEEE binary64 (GoSem/F64.lean, "
-       "floats as data, rounding by exact integer arithmetic): String/parse and unmarshal round trips, fromString_rejects (the "
+       "floats as data, rounding by exact integer arithmetic): String/parse and unmarshal round trips, Scan (text printed with %d %b %o %O %x %X - any sign form, any zero padding, every "
+       "value of both types, lower and upper case, hexadecimal digit e included - reads back with the same verb; other verbs = "
+       "FromString), both Int64() accessors, fromString_rejects (the "
        "text is accepted iff it is an integer literal of the declarative grammar, plain and exponent forms, value stated over Q), "
        "FromBigInt exact-or-saturates and AsBigInt identities, the five narrowing predicates iff the As* conversion preserves "
        "the value, FromFloat64 = truncation in range / nearest bound outside / NaN to 0 with no implementation-defined "
        "conversion ever evaluated, AsFloat64: sign and zero-ness for all 2^128 values of both types, exact below 2^53, and "
        "within one unit in the last place (both of the result's and of the exact value's binade; tight, relies on ties-to-even). "
        "~500k lines per quick run incl. f64op lines validating the float model against the hardware.",
-  note="fmt/JSON/YAML/Scan plumbing is an implementation-side identity oracle against math/big (no theorem); 32-bit big.Word "
-       "branches not modelled; math/big and strconv grammars transcribed from go1.24.2 (incl. math/big's exponent limits: an "
+  note="Scan and Unmarshal*: what the methods do with a token/text (scanText, FromString, receiver kept on error) is modelled "
+       "and proved and compared per line (areas scan, conv); fmt's tokenisation, widths and flags, Format (delegated to "
+       "big.Int.Format), encoding/json and yaml.v3 dispatch, ToBigInt onto a used destination and AsBigFloat are an "
+       "implementation-side identity oracle against math/big (no theorem); the 32-bit big.Word branches are not modelled "
+       "separately but are run against the same model and oracle on a GOARCH=386 build; math/big and strconv grammars transcribed from go1.24.2 (incl. math/big's exponent limits: an "
        "exponent literal beyond them is rejected rather than saturated - reading, Appendix B).",
   ref="DESIGN.md section 5 C02"),
  "C09": dict(
